@@ -242,6 +242,30 @@ def imtlg_wellposed(J, thr=1e-6):
     return abs(float(v.sum())) * float(d.max()) >= thr
 
 
+def config_direction_ratio(J, p):
+    """|pinv(unit rows) @ w| / |w| with w the preference vector (ones by default). When this is 0 in exact
+    arithmetic ConFIG's direction is 0/0: the library guards it with an exact `norm() == 0` test which rounding
+    noise defeats (finding reported under the sig prefix 'zero-direction:ConFIG')."""
+    U = unit_rows(J)
+    w = np.ones(U.shape[0]) if p is None else np.asarray(p, dtype=np.float64)
+    if not np.any(w):
+        return 0.0
+    return float(np.linalg.norm(np.linalg.pinv(U, rcond=1e-10) @ w) / np.linalg.norm(w))
+
+
+def dense2(seed, m, n, count=8):
+    """A second dense family with generic FULL rank (alphabets.dense is a rank-2 kernel sin(ai+bj+c) plus
+    rounding noise of relative size 1e-3, which no 'unambiguous rank' predicate accepts for m, n >= 3)."""
+    out = []
+    for k in range(count):
+        a = 0.9 + 0.31 * k + 0.13 * (seed % 8)
+        b = 1.7 + 0.47 * k + 0.05 * (seed % 8)
+        c = 0.61 + 0.29 * k + 0.17 * (seed % 8)
+        out.append(np.array([[round(3 * math.sin(1.0 + a * i * i + b * j + c * (i + 1) * (j + 2)), 2) for j in range(n)]
+                             for i in range(m)]))
+    return out
+
+
 def krum_margin(J, f, k):
     """Relative gap between the k-th and (k+1)-th smallest Krum score (inf when all rows are selected)."""
     m = J.shape[0]
